@@ -20,7 +20,7 @@ from .common import CACHEFILE
 
 PROPERTY = "C11"
 LEVEL = "fault_enumeration"
-RUNS = {"quick": 1400, "thorough": 40000}
+RUNS = {"quick": 3000, "thorough": 60000}
 BATCH = 25
 RULE = ("seeded scenarios: (directory tree, server type, fault kind in {truncate-at-cut, zero-fill, "
         "writer crash at cut, ENOSPC at cut, concurrent readers vs torn writer, ZIP index file faults}, "
